@@ -331,7 +331,8 @@ def expand(args):
             _record(model, r, out)
             if not pairs:
                 continue
-            for e2 in model.followups(info, e1):
+            f2 = model.followups(info, e1)
+            for e2 in f2:
                 k = 0
                 while k <= maxk:
                     r = replay(model, hist + [[e1, [e2, k]]], fine=fine, salt=salt)
@@ -343,6 +344,23 @@ def expand(args):
                         continue
                     out["maxk"] = max(out["maxk"], k)
                     _record(model, r, out)
+                    if opts.get("triples"):
+                        # a third event at every later point of the same macro-step
+                        for e3 in f2:
+                            if e3 == e2 or (e3[0] == "cmd" and e2[0] == "cmd" and e3[1] == e2[1]):
+                                continue
+                            k3 = k
+                            while k3 <= maxk:
+                                r3 = replay(model, hist + [[e1, [e2, k], [e3, k3]]], fine=fine,
+                                            salt=salt)
+                                out["replays"] += 1
+                                if r3.status == "invalid":
+                                    if r3.detail == "late":
+                                        break
+                                    k3 += 1
+                                    continue
+                                _record(model, r3, out)
+                                k3 += 1
                     k += 1
     gc.collect()
     out["outcomes"] = list(out["outcomes"])
